@@ -613,6 +613,155 @@ fn batch_case(c: &BatchCase) -> CaseResult {
 }
 
 // ---------------------------------------------------------------------------
+// (C') the in-circuit verifier on generated inner circuits (E1 family, one phase): instance
+// columns queried at rotations, committed and plain instance columns, lookups, copy constraints
+
+struct GenGadgetCircuit {
+    inner_vk: (EvaluationDomain<F>, ConstraintSystem<F>, Value<F>),
+    committed: Vec<Value<C>>,
+    plain: Vec<Vec<F>>,
+    inner_proof: Value<Vec<u8>>,
+}
+
+impl Circuit<F> for GenGadgetCircuit {
+    type Config = GadgetConfig;
+    type FloorPlanner = SimpleFloorPlanner;
+    type Params = ();
+    fn without_witnesses(&self) -> Self {
+        unreachable!()
+    }
+    fn configure(meta: &mut ConstraintSystem<F>) -> Self::Config {
+        GadgetCircuit::configure(meta)
+    }
+    fn synthesize(&self, config: Self::Config, mut layouter: impl Layouter<F>) -> Result<(), Error> {
+        let native_chip = <NativeChip<F> as ComposableChip<F>>::new(&config.0, &());
+        let core_decomp_chip = P2RDecompositionChip::new(&config.1, &16);
+        let native_gadget = NativeGadget::new(core_decomp_chip.clone(), native_chip.clone());
+        let curve_chip = ForeignEccChip::new(&config.2, &native_gadget, &native_gadget);
+        let poseidon_chip = PoseidonChip::new(&config.3, &native_chip);
+        let verifier_chip = VerifierGadget::<S>::new(&curve_chip, &native_gadget, &poseidon_chip);
+        let vk: AssignedVk<S> = verifier_chip.assign_vk_as_public_input(&mut layouter, "inner_vk", &self.inner_vk.0, &self.inner_vk.1, self.inner_vk.2)?;
+        let mut committed = vec![];
+        for c in &self.committed {
+            committed.push(curve_chip.assign(&mut layouter, *c)?);
+        }
+        let mut plain = vec![];
+        for col in &self.plain {
+            let vals: Vec<Value<F>> = col.iter().map(|v| Value::known(*v)).collect();
+            let a = native_gadget.assign_many(&mut layouter, &vals)?;
+            for x in &a {
+                native_gadget.constrain_as_public_input(&mut layouter, x)?;
+            }
+            plain.push(a);
+        }
+        let plain_refs: Vec<&[_]> = plain.iter().map(|v| &v[..]).collect();
+        let mut acc = verifier_chip.prepare(&mut layouter, &vk, &committed, &plain_refs, self.inner_proof.clone())?;
+        acc.collapse(&mut layouter, &curve_chip, &native_gadget)?;
+        verifier_chip.constrain_as_public_input(&mut layouter, &acc)?;
+        core_decomp_chip.load(&mut layouter)
+    }
+}
+
+#[derive(Clone, Debug, Serialize, Deserialize)]
+struct GenGadgetCase {
+    knobs: vp_plonk::e1::Knobs,
+    wseed: u64,
+    n_committed: usize,
+}
+
+fn gen_gadget_case(c: &GenGadgetCase) -> CaseResult {
+    use vp_plonk::{e1, pv};
+    let mut kn = c.knobs.clone();
+    kn.phases = 1;
+    kn.k_extra = 0;
+    kn.ops.truncate(4);
+    // the in-circuit verifier supports queries at rotations -1, 0, 1 only (it says so when asked
+    // for another one) and expects the inner circuit to query its instance columns
+    for g in kn.gates.iter_mut() {
+        for cell in g.cells.iter_mut() {
+            cell.1 = cell.1.clamp(-1, 1);
+        }
+    }
+    let spec = e1::expand(&kn);
+    let max_rot = spec.gates.iter().map(|g| { let (a, b) = g.rot_range(); a.abs().max(b.abs()) }).max().unwrap_or(0);
+    if max_rot > 1 {
+        return Ok(Verdict::trivial("inner-circuit-uses-unsupported-rotations"));
+    }
+    if spec.k > 7 {
+        return Ok(Verdict::trivial("inner-circuit-too-large"));
+    }
+    let n_committed = c.n_committed.min(spec.n_instance.saturating_sub(1));
+    let mut plan = e1::build_plan(&spec, c.wseed);
+    // (the gadget does not take empty instance columns: an unused column gets one free value)
+    for col in plan.instances.iter_mut() {
+        if col.is_empty() {
+            col.push(F::ZERO);
+        }
+    }
+    if pv::mock(&spec, &plan).is_err() {
+        return Ok(Verdict::trivial("harness:plan-not-satisfying"));
+    }
+    let (pk, vk) = pv::keygen(&spec).map_err(|e| Failure::new("harness:keygen-fails", e))?;
+    if vk.cs().instance_queries().is_empty() {
+        return Ok(Verdict::trivial("inner-circuit-without-instance-queries"));
+    }
+    let st = pv::statement(&vk, &spec, &[plan.instances.clone()], n_committed);
+    let mut t = CircuitTranscript::<Poseidon>::init();
+    pv::prove(&pk, &spec, &[plan.clone()], n_committed, c.wseed ^ 0x20, &mut t).map_err(|e| Failure::new("harness:create_proof-fails", e))?;
+    let proof = t.finalize();
+    // off-circuit
+    let fixed_bases = verifier::fixed_bases::<S>("inner_vk", &vk);
+    let plain_refs: Vec<&[F]> = st.plain[0].iter().map(|c| &c[..]).collect();
+    let mut tr = CircuitTranscript::<Poseidon>::init_from_bytes(&proof);
+    let dm = vpcore::catch(|| prepare::<F, KZGCommitmentScheme<Bls12>, _>(&vk, &[&st.committed[0][..]], &[&plain_refs[..]], &mut tr))
+        .map_err(|p| Failure::new("harness:offcircuit-prepare-panics", p))?
+        .map_err(|e| Failure::new("harness:offcircuit-prepare-fails-on-honest-proof", format!("{e:?}")))?;
+    let ok = dm.clone().check(&pv::params(spec.k).verifier_params());
+    ensure!(ok, "harness:honest-inner-proof-rejected-offcircuit", "spec = {spec:?}");
+    let mut acc = Accumulator::<S>::from_dual_msm(dm, "inner_vk", &fixed_bases);
+    acc.collapse();
+    let repr = vk.transcript_repr();
+    let mut public = vec![repr];
+    for col in &st.plain[0] {
+        public.extend_from_slice(col);
+    }
+    public.extend(AssignedAccumulator::as_public_input(&acc));
+    let circuit = GenGadgetCircuit {
+        inner_vk: (vk.get_domain().clone(), vk.cs().clone(), Value::known(repr)),
+        committed: st.committed[0].iter().map(|p| Value::known(*p)).collect(),
+        plain: st.plain[0].clone(),
+        inner_proof: Value::known(proof.clone()),
+    };
+    let run = |public: Vec<F>| -> Result<bool, String> {
+        match vpcore::catch(|| MockProver::run(GADGET_K, &circuit, vec![vec![], public]).map(|p| p.verify().is_ok())) {
+            Err(p) => Err(format!("panic: {p}")),
+            Ok(Err(e)) => Err(format!("synthesis: {e:?}")),
+            Ok(Ok(b)) => Ok(b),
+        }
+    };
+    let r = run(public.clone());
+    let rots: Vec<i32> = spec.gates.iter().flat_map(|g| g.eqs.iter()).filter_map(|e| if let e1::Eqn::Inst { irot, .. } = e { Some(*irot) } else { None }).collect();
+    ensure!(
+        r == Ok(true),
+        format!("gadget:generated-inner-circuit:differs-from-offcircuit:{}", if rots.iter().any(|r| *r != 0) { "instance-rotations" } else { "other" }),
+        "in-circuit verifier is not satisfied with the off-circuit accumulator: {r:?}; committed instance columns {n_committed}, instance query rotations {rots:?}; spec = {spec:?}"
+    );
+    let mut w = public.clone();
+    let pos = 1 + (c.wseed as usize) % (w.len() - 1);
+    w[pos] += F::ONE;
+    let r = run(w);
+    ensure!(r != Ok(true), "gadget:generated-inner-circuit:accepts-edited-public-input", "position {pos}");
+    let mut v = Verdict::nontrivial(format!("committed:{n_committed}"));
+    if rots.iter().any(|r| *r != 0) {
+        v = v.with("instance-queried-at-rotation");
+    }
+    for f in spec.features() {
+        v = v.with(f);
+    }
+    Ok(v)
+}
+
+// ---------------------------------------------------------------------------
 // (E) accumulators passed through a circuit as witnesses (recursion steps): the witnessed value,
 // and the in-circuit accumulation of witnessed values, are the off-circuit ones
 
@@ -762,6 +911,15 @@ fn main() {
                 acc_case,
             );
         }
+        p.sub_cfg(
+            "verifier-gadget.generated",
+            "VerifierGadget<BlstrsEmulation> at k=18 under MockProver on honest Poseidon-transcript proofs of generated inner circuits (E1 family restricted to one phase and k <= 7: instance columns queried at rotations -1..1, committed and plain instance columns, lookups, copy constraints): satisfied with the off-circuit accumulator, not with an edited public input; every case non-trivial",
+            p.tier.pick(8, 80),
+            4,
+            2,
+            || (vp_plonk::e1::knobs_strategy(4), any::<u64>(), 0usize..=1).prop_map(|(knobs, wseed, n_committed)| GenGadgetCase { knobs, wseed, n_committed }).boxed(),
+            gen_gadget_case,
+        );
         p.assume("inner circuits are the standard-library fixture relations with exactly two public inputs (the aggregator's documented limitation); one SRS secret");
         p.sub(
             "ipa",
